@@ -2,6 +2,9 @@
 import os, sys
 
 import qv
+sys.path.insert(0, os.path.dirname(os.path.abspath(__file__)))
+import incgen
+import c24
 
 SCRATCH = os.path.join(qv.BUILD, "c25")
 
@@ -76,10 +79,63 @@ def classify(case, impl, model, oracle):
     return f"depth{case.split()[1]}:{e}"
 
 
+# ---------------------------------------------------------------- suite zonefull: trees of real zone files
+
+def gen_full(rng, tier):
+    """Case: incf <depth> <hex root> <hex path>=<hex content>;... <hex flattened text|-> <hex expected line|->"""
+    n = 900 if tier == "quick" else 20000
+    caseless = c24.caseless_in_tree()
+    yield from incgen.fixed_cases()
+    yield from incgen.enum_cases(rng, tier)
+    for i in range(n):
+        t = incgen.gen_tree(rng, caseless)
+        exp = t["expected"]
+        yield incgen.case_line(t) + " " + (incgen.hx(exp.encode()) if exp != "-" else "-")
+
+
+def expected_of(case):
+    f = case.split()
+    return bytes.fromhex(f[5]).decode() if len(f) > 5 and f[5] != "-" else None
+
+
+def oracle_ok_full(case, impl, oracle):
+    """impl = the structural expansion of the same tree (extracted spec); = the line the generator
+    computed from the abstract records when the tree is predictable; the flattened text (when there
+    is one) parses to the same record sequence."""
+    if impl in ("panic", "timeout", "crash") or " after=" in impl:
+        return False
+    if impl != oracle:
+        return False
+    exp = expected_of(case)
+    if exp is not None and impl != exp:
+        return False
+    if case.split()[4] != "-" and not impl.endswith("# flat=same"):
+        return False
+    return True
+
+
+def nontrivial_full(case, impl, model, oracle):
+    # an $INCLUDE was followed: records from at least two different files
+    paths = {it.split(":")[0] for it in impl.split(" # ")[0].split(" ; ") if " o=" in it}
+    return len(paths) >= 2
+
+
+def classify_full(case, impl, model, oracle):
+    body = impl.split(" # ")[0].split(" ; ")
+    e = body[-1].split(":")
+    end = e[0] if e[0] != "err=syntax" else "err=syntax"
+    paths = {it.split(":")[0] for it in body if " o=" in it}
+    pred = "pred" if expected_of(case) is not None else "unpred"
+    flat = impl.split("flat=")[-1] if "flat=" in impl else "?"
+    return f"{end}:files{min(len(paths), 4)}:{pred}:flat-{flat}"
+
+
 CHECK = {
     "property": "C25",
     "props": "Props/C25.v",
-    "theorems": ["c25_stack_eq_expand", "c25_terminates", "c25_depth", "c25_context_scoping"],
+    "theorems": ["c25_stack_eq_expand", "c25_terminates", "c25_depth", "c25_context_scoping",
+                 "c25_iter_stack_eq_expand", "c25_iter_depth", "c25_lines_are_iter", "c25_relative_paths", "c25_full_stack_eq_expand", "c25_full_any_fuel", "c25_full_total_valid",
+                 "c25_full_include_boundary", "c25_full_include_directory", "c25_has_parent_iff"],
     "allowed_axioms": [],
     "suites": [{
         "name": "zoneinc",
@@ -93,16 +149,43 @@ CHECK = {
                  "mini line parser (Model/ZfMini.v) vs the extracted structural expand (oracle); compared: (path, line, owner, ttl, "
                  "address) of every record in order, then the error kind/path/line/chain; non-trivial = a case with an $INCLUDE that "
                  "yields at least two events"),
+    }, {
+        "name": "zonefull",
+        "impl_bin": "impl_c25f", "extract": "Extract/ExC25f.v", "driver": "run_c25f.ml",
+        "gen": gen_full, "nontrivial": nontrivial_full, "classify": classify_full,
+        "oracle_ok": oracle_ok_full,
+        "exhaustive": {"quick": False, "thorough": False},
+        "rule": ("30 hand-written boundary trees (included file ending inside parentheses / without a line ending / empty; directive over several "
+                 "lines; chains at the limit; self- and mutual inclusion; directories; the name limit reached through the handed-down origin; ...); small-scope enumeration: every root of 1..4 lines "
+                 "over 7 context-setting / context-using lines with an $INCLUDE x every included file of 0..2 lines over 5 such lines (62 620 trees; a seeded "
+                 "sample of 1500 in the quick tier, all in the thorough tier); then "
+                 "random trees of REAL zone files (checks/incgen.py): 1..7 files in sub-directories (one with a blank in its name), generated in "
+                 "execution order by a generator that carries the parse context the property prescribes; every record type of checks/zfgen.py "
+                 "(incl. CH A, WKS, TXT, SOA, unknown types, \\# forms), $ORIGIN / $TTL in includers and included files, $INCLUDE paths relative "
+                 "with `..`, quoted / escaped, optional directive origins; presentation depends on the context: names relative to the current origin, "
+                 "`@`, omitted owner / TTL / class — biased to occur right after an include returns; parentheses, comments, CRLF, missing final line "
+                 "ending; depth limits 0..4; missing targets, re-included and cyclic files, 12 % trees with one file mutated (truncate/insert/delete/"
+                 "replace/duplicate); real zone_file::fs::Parser vs the extracted stack machine over the FULL parser model (Model/ZfInc.v + "
+                 "ZfParser.v) vs the extracted structural expansion (oracle) vs, for predictable trees, the line computed by the generator from "
+                 "the abstract records; compared record by record: path, line, owner wire, TTL, class, type, RDATA, validity, then the error kind / "
+                 "file / line:column / opened path / include chain; where a flattened equivalent text exists (every $INCLUDE replaced by the "
+                 "included text between $ORIGIN lines) the plain zone_file::Parser must yield the same record sequence from it; "
+                 "non-trivial = records from at least two files"),
     }],
     "trusted_base": [
         "Coq 8.16.1 kernel; axioms: none",
         "extraction: ExtrOcamlBasic only; OCaml 4.13.1",
-        "the per-file line parser is a parameter of the theorems; the correspondence instantiates it with Model/ZfMini.v for a "
-        "sub-language only (tokenisation at blanks in ocaml/run_c25.ml); the real record parser is C23/C24's subject",
+        "suite zoneinc: the per-file line parser is a parameter of the first-wave theorems and is instantiated with Model/ZfMini.v for a "
+        "sub-language (tokenisation at blanks in ocaml/run_c25.ml); suite zonefull: the per-file parser is the full zone-file parser model "
+        "of C24 (Model/ZfReader.v, ZfParser.v, ZfStd.v: its correspondence to the code is C24's and this suite's differential run, not a proof)",
+        "checks/incgen.py + checks/zfgen.py as an independent statement of what a rendered tree denotes (third opinion on predictable trees)",
+        "I/O errors while reading are modelled only for directories (File::open succeeds, the first read fails: GeneralIo against the directory's path); "
+        "which paths name directories is decided lexically by ocaml/run_c25f.ml from the generated tree",
         "path semantics of the OS (the driver resolves `..` lexically before looking a path up in the generated tree); "
         "Path::parent/join modelled for paths without empty or `.` components",
     ],
-    "assumptions": ["every file is a finite list of logical lines"],
+    "assumptions": ["every file is a finite octet string (zonefull) / a finite list of logical lines (zoneinc)",
+                    "every file that can be opened has a parent directory (the assumption stated in compute_path's doc comment)"],
 }
 
 MANIFEST = {
@@ -110,9 +193,16 @@ MANIFEST = {
                    "file: iterating the model of fs::Parser::next yields exactly the structural expansion — each $INCLUDE replaced in "
                    "place by the included file started with the includer's context (or the directive's origin), the includer's origin "
                    "restored afterwards — up to its first error; the iteration terminates; an $INCLUDE at the nesting limit is "
-                   "IncludesTooDeep at that line with the include chain. Tied to the code by random file trees parsed by the real "
-                   "zone_file::fs::Parser."),
-    "level_note": "Proof of the stack machine against the structural spec; the line parser is abstract (sub-language instance in the run); OS path resolution trusted.",
+                   "IncludesTooDeep at that line with the include chain. The same for the machine whose stack entries own a stateful per-file "
+                   "iterator (as in the Rust code), and for its instance with the FULL zone-file parser model of C24: run = structural expansion "
+                   "with no fuel/budget hypothesis left, never a panic, every record yielded through any nesting of includes valid (C24 across "
+                   "include boundaries), and the explicit form of what crosses an include boundary (the included file inherits previous "
+                   "owner/TTL/class/default TTL and gets the directive's origin; the includer gets back its own origin and reader and the "
+                   "included file's previous owner/TTL/class/default TTL). Tied to the code by random trees of real zone files parsed by the "
+                   "real zone_file::fs::Parser, compared record by record, and with the plain parser on the flattened text."),
+    "level_note": ("Proof of the stack machine against the structural spec, generic and for the full parser model; the literal flattened-text form "
+                   "of the property is checked (real and model parsers on generated flattened texts), not proved. OS path resolution and read "
+                   "errors trusted/not modelled."),
     "technique": "machine-checked proof in Coq (continuation-style simulation, induction on depth budget and lines) + file-tree correspondence",
     "design_ref": "DESIGN.md §4 C25",
 }
